@@ -34,6 +34,53 @@ func runShape[V comparable](cp int, ops []Op, mk func(i int) V, congr *bool) *vs
 // while the buffer held more than len(dst) elements. The scratch outside the window starts as the zero value of V and
 // must stay so.
 func runShapeW[V comparable](cp int, ops []Op, mk func(i int) V, congr, window *bool) *vstat.Violation {
+	var si shapeInfo
+	v := runShapeE(cp, ops, comparableElem(mk), &si)
+	*congr, *window = si.Congr, si.Window
+	return v
+}
+
+// elem describes an element type V to the runner. V need not be comparable: same decides whether two values are the
+// same element (for slices, maps, funcs: through the identity of what they refer to / a tag reachable from them), show
+// renders a value without addresses, kind names the values worth counting ("" = ordinary; "zero_value", "nil_interface",
+// "typed_nil_in_interface", ...).
+type elem[V any] struct {
+	mk        func(i int) V
+	same      func(a, b V) bool
+	show      func(v V) string
+	showSharp func(v V) string // used where the runner always printed %#v
+	kind      func(v V) string
+}
+
+func comparableElem[V comparable](mk func(i int) V) elem[V] {
+	return elem[V]{mk: mk, same: func(a, b V) bool { return a == b },
+		show:      func(v V) string { return fmt.Sprintf("%v", v) },
+		showSharp: func(v V) string { return fmt.Sprintf("%#v", v) },
+		kind:      func(V) string { return "" }}
+}
+
+// shapeInfo is the classification of one run.
+type shapeInfo struct {
+	Congr, Window bool
+	Stored        map[string]bool // kinds of the values that were accepted by Write
+	Refused       map[string]bool // kinds of the values that met a full buffer
+	Returned      map[string]bool // kinds of the values that came back through Read / ReadN / At
+}
+
+func (si *shapeInfo) note(m *map[string]bool, kind string) {
+	if kind == "" {
+		return
+	}
+	if *m == nil {
+		*m = map[string]bool{}
+	}
+	(*m)[kind] = true
+}
+
+// runShapeE is the runner for any element type.
+func runShapeE[V any](cp int, ops []Op, el elem[V], si *shapeInfo) *vstat.Violation {
+	mk, same, show := el.mk, el.same, el.show
+	congr, window := &si.Congr, &si.Window
 	return vstat.Guard("ring:panic", func() *vstat.Violation {
 		rb := container.NewRingBuffer[V](uint(cp))
 		var model []V
@@ -60,15 +107,17 @@ func runShapeW[V comparable](cp int, ops []Op, mk func(i int) V, congr, window *
 				next++
 				err := rb.Write(v)
 				if len(model) == cp {
+					si.note(&si.Refused, el.kind(v))
 					if err == nil {
-						return vstat.V("ring:write-on-full-accepted", "%s: Write(%v) succeeded with Len==Cap", where, v)
+						return vstat.V("ring:write-on-full-accepted", "%s: Write(%s) succeeded with Len==Cap", where, show(v))
 					}
 					if !errors.Is(err, gerrors.ErrExhausted) {
-						return vstat.V("ring:write-on-full-wrong-error", "%s: Write(%#v) on a full buffer returned %q, which is not ErrExhausted", where, v, err.Error())
+						return vstat.V("ring:write-on-full-wrong-error", "%s: Write(%s) on a full buffer returned %q, which is not ErrExhausted", where, el.showSharp(v), err.Error())
 					}
 				} else {
+					si.note(&si.Stored, el.kind(v))
 					if err != nil {
-						return vstat.V("ring:write-rejected", "%s: Write failed with %v while Len=%d<Cap", where, err, len(model))
+						return vstat.V("ring:write-rejected", "%s: Write(%s) failed with %v while Len=%d<Cap", where, show(v), err, len(model))
 					}
 					model = append(model, v)
 				}
@@ -76,12 +125,13 @@ func runShapeW[V comparable](cp int, ops []Op, mk func(i int) V, congr, window *
 				got, err := rb.Read()
 				if len(model) == 0 {
 					if err != io.EOF {
-						return vstat.V("ring:read-on-empty", "%s: Read on empty returned (%v,%v), want io.EOF", where, got, err)
+						return vstat.V("ring:read-on-empty", "%s: Read on empty returned (%s,%v), want io.EOF", where, show(got), err)
 					}
 				} else {
-					if err != nil || got != model[0] {
-						return vstat.V("ring:read-wrong-element", "%s: Read returned (%v,%v) want %v", where, got, err, model[0])
+					if err != nil || !same(got, model[0]) {
+						return vstat.V("ring:read-wrong-element", "%s: Read returned (%s,%v) want %s", where, show(got), err, show(model[0]))
 					}
+					si.note(&si.Returned, el.kind(got))
 					model = model[1:]
 				}
 			case "n":
@@ -103,19 +153,27 @@ func runShapeW[V comparable](cp int, ops []Op, mk func(i int) V, congr, window *
 				}
 				if front+back <= 1<<16 {
 					for j := 0; j < front; j++ {
-						if scratch[j] != zero {
-							return vstat.V("ring:readn-wrote-outside-dst", "%s: scratch[%d] in front of the destination window scratch[%d:%d] was overwritten with %v", where, j, front, front+ln, scratch[j])
+						if !same(scratch[j], zero) {
+							return vstat.V("ring:readn-wrote-outside-dst", "%s: scratch[%d] in front of the destination window scratch[%d:%d] was overwritten with %s", where, j, front, front+ln, show(scratch[j]))
 						}
 					}
 					for j := front + ln; j < len(scratch); j++ {
-						if scratch[j] != zero {
-							return vstat.V("ring:readn-wrote-outside-dst", "%s: scratch[%d] behind the destination window scratch[%d:%d] was overwritten with %v", where, j, front, front+ln, scratch[j])
+						if !same(scratch[j], zero) {
+							return vstat.V("ring:readn-wrote-outside-dst", "%s: scratch[%d] behind the destination window scratch[%d:%d] was overwritten with %s", where, j, front, front+ln, show(scratch[j]))
 						}
 					}
 				}
 				for j := 0; j < want; j++ {
-					if dst[j] != model[j] {
-						return vstat.V("ring:readn-wrong-element", "%s: dst[%d]=%v want %v", where, j, dst[j], model[j])
+					if !same(dst[j], model[j]) {
+						return vstat.V("ring:readn-wrong-element", "%s: dst[%d]=%s want %s", where, j, show(dst[j]), show(model[j]))
+					}
+					si.note(&si.Returned, el.kind(dst[j]))
+				}
+				if ln <= 1<<16 {
+					for j := want; j < ln; j++ {
+						if !same(dst[j], zero) {
+							return vstat.V("ring:readn-wrote-beyond", "%s: dst[%d] was overwritten with %s although only %d elements were read", where, j, show(dst[j]), want)
+						}
 					}
 				}
 				model = model[want:]
@@ -140,8 +198,8 @@ func runShapeW[V comparable](cp int, ops []Op, mk func(i int) V, congr, window *
 					got = rb.At(op.N)
 					return false
 				}()
-				if inRange && (panicked || got != model[op.N]) {
-					return vstat.V("ring:at-wrong-element", "%s: At panicked=%v got %v want %v (Len=%d)", where, panicked, got, model[op.N], len(model))
+				if inRange && (panicked || !same(got, model[op.N])) {
+					return vstat.V("ring:at-wrong-element", "%s: At panicked=%v got %s want %s (Len=%d)", where, panicked, show(got), show(model[op.N]), len(model))
 				}
 				if !inRange && !panicked {
 					return vstat.V("ring:at-no-panic-out-of-range", "%s: At did not panic although Len=%d", where, len(model))
@@ -181,25 +239,56 @@ func runShapeCaseInfo(c shapeCase) (v *vstat.Violation, congr bool) {
 
 // runShapeCaseInfoW also tells whether a ReadN destination was a window with spare capacity, shorter than Len.
 func runShapeCaseInfoW(c shapeCase) (v *vstat.Violation, congr, window bool) {
+	v, si := runShapeCaseFull(c)
+	return v, si.Congr, si.Window
+}
+
+// runShapeCaseFull dispatches on the element shape and returns the whole classification.
+func runShapeCaseFull(c shapeCase) (v *vstat.Violation, si shapeInfo) {
 	switch c.Shape {
 	case "string":
-		v = runShapeW(c.Cap, c.Ops, func(i int) string { return fmt.Sprintf("%s#%d", hostile[i%len(hostile)], i) }, &congr, &window)
+		v = runShapeE(c.Cap, c.Ops, comparableElem(func(i int) string { return fmt.Sprintf("%s#%d", hostile[i%len(hostile)], i) }), &si)
 	case "struct":
-		v = runShapeW(c.Cap, c.Ops, func(i int) wrapped { return wrapped{hostile[i%len(hostile)], i} }, &congr, &window)
+		v = runShapeE(c.Cap, c.Ops, comparableElem(func(i int) wrapped { return wrapped{hostile[i%len(hostile)], i} }), &si)
 	case "barestring":
-		v = runShapeW(c.Cap, c.Ops, func(i int) string { return hostile[i%len(hostile)] }, &congr, &window)
+		v = runShapeE(c.Cap, c.Ops, comparableElem(func(i int) string { return hostile[i%len(hostile)] }), &si)
+	case "bytes":
+		v = runShapeE(c.Cap, c.Ops, bytesElem, &si)
+	case "map":
+		v = runShapeE(c.Cap, c.Ops, mapElem, &si)
+	case "func":
+		v = runShapeE(c.Cap, c.Ops, funcElem, &si)
+	case "struct_with_slice":
+		v = runShapeE(c.Cap, c.Ops, holderElem, &si)
+	case "array_of_slices":
+		v = runShapeE(c.Cap, c.Ops, arrayElem, &si)
+	case "any":
+		v = runShapeE(c.Cap, c.Ops, anyElem, &si)
+	case "error":
+		v = runShapeE(c.Cap, c.Ops, errorElem, &si)
 	default: // zero-size elements: the only shape for which capacities near MaxInt can be allocated
-		v = runShapeW(c.Cap, c.Ops, func(i int) struct{} { return struct{}{} }, &congr, &window)
+		v = runShapeE(c.Cap, c.Ops, comparableElem(func(i int) struct{} { return struct{}{} }), &si)
 	}
-	return v, congr, window
+	return v, si
 }
 
 func TestC14Shapes(t *testing.T) {
 	st := vstat.For(prop)
 	run := func(tb vstat.TB, c shapeCase) {
-		v, congr, window := runShapeCaseInfoW(c)
+		v, si := runShapeCaseFull(c)
+		congr, window := si.Congr, si.Window
 		st.Report(tb, "TestC14Shapes", c, v)
 		classes := []string{"element_shape:" + c.Shape}
+		for _, m := range []struct {
+			what string
+			set  map[string]bool
+		}{{"stored", si.Stored}, {"written_to_full_buffer", si.Refused}, {"returned", si.Returned}} {
+			for _, k := range []string{"zero_value", "nil_interface", "typed_nil_in_interface", "uncomparable_value_in_interface", "non_nil_value_in_interface"} {
+				if m.set[k] {
+					classes = append(classes, "element_shape:"+c.Shape+":"+k+"_"+m.what)
+				}
+			}
+		}
 		if window {
 			classes = append(classes, "element_shape:"+c.Shape+":readn_into_window_with_spare_capacity_shorter_than_Len")
 		}
@@ -212,7 +301,10 @@ func TestC14Shapes(t *testing.T) {
 		st.Case(true, vstat.Hash(c), func() any { return c }, classes...)
 	}
 	// systematic: fill to capacity, write once more (with every hostile text in turn), drain
-	for _, shape := range []string{"string", "barestring", "struct"} {
+	// (the uncomparable and interface element types too: every kind of value - nil interface, typed nil, zero value,
+	// uncomparable dynamic value - meets the full buffer of every capacity 0..3 and travels through it)
+	allShapes := append(append([]string{"string", "barestring", "struct"}, uncomparableShapes...), interfaceShapes...)
+	for _, shape := range allShapes {
 		for cp := 0; cp <= 3; cp++ {
 			for start := 0; start < len(hostile); start++ {
 				var ops []Op
@@ -245,7 +337,7 @@ func TestC14Shapes(t *testing.T) {
 		run(t, shapeCase{Shape: "zerosize", Cap: cp, Ops: ops})
 	}
 	rapid.Check(t, func(rt *rapid.T) {
-		c := shapeCase{Shape: rapid.SampledFrom([]string{"string", "barestring", "struct", "zerosize"}).Draw(rt, "shape")}
+		c := shapeCase{Shape: rapid.SampledFrom(append(append([]string{"string", "barestring", "struct", "zerosize"}, uncomparableShapes...), interfaceShapes...)).Draw(rt, "shape")}
 		c.Cap = rapid.IntRange(0, 6).Draw(rt, "cap")
 		if c.Shape == "zerosize" && rapid.Bool().Draw(rt, "huge") {
 			c.Cap = rapid.SampledFrom([]int{math.MaxInt - 1, math.MaxInt - 3, math.MaxInt - 200, 1 << 62, 1 << 33}).Draw(rt, "hugeCap")
